@@ -1,5 +1,6 @@
 """C12 - one number type: int and float spellings of a number are interchangeable."""
 
+import collections
 import datetime
 import math
 import re
@@ -40,7 +41,33 @@ LIMIT = 10 ** 15
 # Encoded values (JSON-able, replayable):  None | bool | str | {'n': int} integral number (spelled per run) |
 #   {'f': 'repr'} other float | {'a': [...]} | {'o': [[k, v]...]} | {'dt': [...]} | {'date': [...]} | {'re': [pat, flags]} |
 #   {'fn': name} | {'same': i} (the identical object as top-level argument i)
+#   a container may carry 'cls': the HOST-CREATED dict / list subclass it is an instance of ({'a': [...], 'cls': 'MyList'},
+#   {'o': [...], 'cls': 'OrderedDict'}); without 'cls' it is the plain list / dict scripts create themselves
 # ---------------------------------------------------------------------------------------------------------------------
+
+class MyDict(dict):
+    """An application's own object class."""
+
+
+class MyList(list):
+    """An application's own array class."""
+
+
+class SlotList(list):
+    """An application's own array class without an instance dict."""
+    __slots__ = ()
+
+
+def _defaultdict():
+    return collections.defaultdict(list)
+
+
+# value_type() says 'object' / 'array' for every one of these: they are ordinary values to the library
+OBJ_CLASSES = {'OrderedDict': collections.OrderedDict, 'defaultdict': _defaultdict, 'Counter': collections.Counter, 'MyDict': MyDict}
+ARR_CLASSES = {'MyList': MyList, 'SlotList': SlotList}
+OBJ_CLASS_NAMES = sorted(OBJ_CLASSES)
+ARR_CLASS_NAMES = sorted(ARR_CLASSES)
+
 
 def N(n):
     return {'n': int(n)}
@@ -113,9 +140,13 @@ def build(enc, sp):
     if 'f' in enc:
         return float(enc['f'])
     if 'a' in enc:
-        return [build(x, sp) for x in enc['a']]
+        items = [build(x, sp) for x in enc['a']]
+        return ARR_CLASSES[enc['cls']](items) if enc.get('cls') else items
     if 'o' in enc:
-        return {k: build(v, sp) for k, v in enc['o']}
+        obj = OBJ_CLASSES[enc['cls']]() if enc.get('cls') else {}
+        for k, v in enc['o']:
+            obj[k] = build(v, sp)
+        return obj
     if 'dt' in enc:
         return datetime.datetime(*enc['dt'])
     if 'date' in enc:
@@ -188,6 +219,7 @@ def run_call(case, spelling):
     fname = case['fn']
     args = build_args(case['args'], spelling)
     inner = []
+    args_errors = []
     real = lib.SCRIPT_FUNCTIONS[fname]
 
     def wrapper(fargs, options):
@@ -195,6 +227,10 @@ def run_call(case, spelling):
             res = real(fargs, options)
         except Exception as exc:  # pylint: disable=broad-except
             inner.append(type(exc).__name__)
+            if isinstance(exc, val.ValueArgsError):
+                # the library's own argument-error text ('Invalid "x" argument value, <value_json of the argument>'): part of the
+                # failure behaviour; texts of host exceptions (TypeError ...) are not compared
+                args_errors.append(str(exc))
             raise
         inner.append('ok')
         return res
@@ -222,7 +258,9 @@ def run_call(case, spelling):
         'args_after': [canon(g.get(f'a{i}')) for i in range(len(args))],
         'result_is_arg': [i for i, a in enumerate(args) if res is a and isinstance(a, (list, dict))],
         'globals': [[k, canon(v)] for k, v in g.items() if k not in base_names],
-        'log': [ln for ln in log if not ln.startswith('BareScript: Function "')],
+        'log': [ln for ln in log if not ln.startswith('BareScript: Function "') or
+                any(ln == f'BareScript: Function "{fname}" failed with error: {msg}' for msg in args_errors)],
+        'args_errors': args_errors,
     }
     # a function result: apply it to no arguments and compare what it computes
     if callable(res) and escaped is None:
@@ -791,6 +829,240 @@ def script_differs(text):
 
 
 # ---------------------------------------------------------------------------------------------------------------------
+# Host-created containers: the same calls / operators / scripts with the numbers sitting inside dict and list SUBCLASS instances
+# (collections.OrderedDict / defaultdict / Counter, an application's own dict and list subclasses). They are 'object' / 'array' to
+# value_type and to every argument check; the numbers inside are exact int / float (the property speaks of host int vs float).
+# ---------------------------------------------------------------------------------------------------------------------
+
+HOST_MODES = ('all', 'top', 'inner', 'rand')
+
+
+def hostify(rng, enc, mode, depth=0):
+    """The same encoded value with containers turned into host subclass instances: all of them / the outermost ones / only the
+    ones nested inside a plain container / each with probability 1/2. Returns (value, number of subclassed containers)."""
+    if not isinstance(enc, dict) or not ('a' in enc or 'o' in enc):
+        return enc, 0
+    pick = (mode == 'all' or (mode == 'top' and depth == 0) or (mode == 'inner' and depth > 0) or (mode == 'rand' and rng.random() < 0.5))
+    n = 0
+    if 'a' in enc:
+        items = []
+        for x in enc['a']:
+            y, k = hostify(rng, x, mode, depth + 1)
+            items.append(y)
+            n += k
+        out = {'a': items}
+        if pick:
+            out['cls'] = rng.choice(ARR_CLASS_NAMES)
+    else:
+        pairs = []
+        for key, x in enc['o']:
+            y, k = hostify(rng, x, mode, depth + 1)
+            pairs.append([key, y])
+            n += k
+        out = {'o': pairs}
+        if pick:
+            out['cls'] = rng.choice(OBJ_CLASS_NAMES)
+    return out, n + (1 if pick else 0)
+
+
+def hostify_case(rng, case, mode):
+    n = 0
+    if case['kind'] == 'call':
+        args = []
+        for a in case['args']:
+            y, k = hostify(rng, a, mode)
+            args.append(y)
+            n += k
+        return dict(case, args=args), n
+    out = dict(case)
+    for side in ('left', 'right'):
+        if side in case:
+            out[side], k = hostify(rng, case[side], mode)
+            n += k
+    return out, n
+
+
+def nums_in_host(enc, inside=False):
+    """Integral numbers that sit (at any depth) inside a subclassed container."""
+    if isinstance(enc, dict):
+        if 'n' in enc:
+            return 1 if inside else 0
+        inside = inside or bool(enc.get('cls'))
+        if 'a' in enc:
+            return sum(nums_in_host(x, inside) for x in enc['a'])
+        if 'o' in enc:
+            return sum(nums_in_host(v, inside) for _, v in enc['o'])
+    return 0
+
+
+HOST_NUMS = [0, 5, -3, 100, 1000000, 10 ** 14 + 7, 10 ** 15 - 1, -(10 ** 14) - 3, 42]
+HOST_ERR_FNS = ['stringLength', 'mathAbs', 'datetimeYear', 'regexEscape']
+
+
+def host_shapes(x, x2, co, ca, co2):
+    """Where the number sits: object value / array element, key order, directly in the subclass instance, in a plain container nested
+    in it, in a subclass instance nested in plain containers, three deep."""
+    def ho(*pairs):
+        return {'o': [list(p) for p in pairs], 'cls': co}
+
+    def ho2(*pairs):
+        return {'o': [list(p) for p in pairs], 'cls': co2}
+
+    def ha(*xs):
+        return {'a': list(xs), 'cls': ca}
+    return [
+        ('obj-value', ho(['n', x])),
+        ('obj-keys-unsorted', ho(['z', 'x'], ['n', x], ['a', True], ['m', x2])),
+        ('arr-elem', ha(x)),
+        ('arr-multi', ha('s', x, None, x2)),
+        ('plain-obj>sub-arr', O(['k', ha(x)])),
+        ('plain-arr>sub-obj', A(ho(['n', x]))),
+        ('sub-obj>sub-arr', ho(['k', ha(x, x2)])),
+        ('sub-arr>sub-obj', ha(ho(['n', x]), x2)),
+        ('sub-obj>plain-arr', ho(['k', A(x)])),
+        ('sub-arr>plain-obj', ha(O(n=x))),
+        ('plain>plain>sub-obj', O(['a', A(ho(['n', x]))])),
+        ('sub>sub>sub', ho(['a', ha(ho2(['n', x], ['b', x2]))])),
+        ('plain>plain>sub-arr', A(A(ha(x)))),
+        ('sub>plain>plain', ha(O(['k', A(x, 'y')]))),
+        ('plain>sub>plain', O(['p', ho(['q', A(x)])], ['r', x2])),
+        ('number-lookalike-text', ho(['s', '5.0'], ['t', '1.0,'], ['n', x])),
+    ]
+
+
+def host_paths(v, ca):
+    """Every way a container reaches text: stringNew, string concatenation (both sides), arrayJoin, systemLog / systemLogDebug,
+    jsonStringify without and with indent, the argument-error message of the debug log."""
+    def call(fn, *args):
+        return {'kind': 'call', 'fn': fn, 'args': list(args)}
+    yield 'stringNew', call('stringNew', v)
+    yield 'concat-right', {'kind': 'binary', 'op': '+', 'left': '', 'right': v}
+    yield 'concat-left', {'kind': 'binary', 'op': '+', 'left': v, 'right': ' x'}
+    yield 'arrayJoin-plain', call('arrayJoin', A(v, N(1)), ',')
+    yield 'arrayJoin-sub', call('arrayJoin', {'a': [v, 't', N(2)], 'cls': ca}, '|')
+    yield 'systemLog', call('systemLog', v)
+    yield 'systemLogDebug', call('systemLogDebug', v)
+    yield 'jsonStringify', call('jsonStringify', v)
+    for indent in (1, 2, 4):
+        yield f'jsonStringify-indent{indent}', call('jsonStringify', v, N(indent))
+    for fn in HOST_ERR_FNS + ['objectKeys' if 'a' in v else 'arrayLength']:
+        yield f'error-message:{fn}', call(fn, v)
+
+
+def host_text_cases(ctx):
+    rng = ctx.rng('host-text')
+    per_cell = ctx.scale(2, 6)
+    lib = fw.impl()['library']
+    for co in OBJ_CLASS_NAMES:
+        for ca in ARR_CLASS_NAMES:
+            nshapes = len(host_shapes(N(0), N(0), co, ca, co))
+            for ix in range(nshapes):
+                for _ in range(per_cell):
+                    x, x2 = N(rng.choice(HOST_NUMS)), N(rng.choice(HOST_NUMS))
+                    shape, v = host_shapes(x, x2, co, ca, rng.choice(OBJ_CLASS_NAMES))[ix]
+                    for path, case in host_paths(v, ca):
+                        if case['kind'] != 'call' or case['fn'] in lib.SCRIPT_FUNCTIONS:
+                            yield shape, path, co, ca, case
+
+
+HOST_GLOBALS = ('h', 'hl', 'hn', 'deep')
+
+
+def gen_hostscript(rng):
+    """A script working on host-provided globals (subclass instances, also nested in / around plain containers): it stores number
+    literals into them (objectSet / arrayPush / arraySet / objectAssign / arrayExtend), then turns them into text by every path."""
+    co, co2, ca = rng.choice(OBJ_CLASS_NAMES), rng.choice(OBJ_CLASS_NAMES), rng.choice(ARR_CLASS_NAMES)
+    num = lambda: N(rng.choice(HOST_NUMS) if rng.random() < 0.4 else rng.randint(0, 9))  # noqa: E731
+    glob = [
+        ['h', {'o': [['z', 'txt'], ['a', num()]], 'cls': co}],
+        ['hl', {'a': [num(), num(), 's'], 'cls': ca}],
+        ['hn', O(['k', {'a': [num()], 'cls': ca}], ['o', {'o': [['n', num()]], 'cls': co2}])],
+        ['deep', {'a': [A({'o': [['n', num()]], 'cls': co})], 'cls': ca}],
+    ]
+    lit = lambda: str(rng.choice([rng.randint(0, 9), rng.randint(10, 100), 100, 1000, 2.5, 100000000000007]))  # noqa: E731
+    key = lambda: rng.choice(['k', 'a', 'q', 'b2'])  # noqa: E731
+    tgt = lambda: rng.choice(['h', 'hl', 'hn', 'deep', "objectGet(hn, 'o')", "objectGet(hn, 'k')", 'arrayGet(deep, 0)',  # noqa: E731
+                              'arrayGet(arrayGet(deep, 0), 0)'])
+    r = lambda: f'r{rng.randint(0, 9)}'  # noqa: E731
+    mutate = [
+        lambda: f"objectSet(h, '{key()}', {lit()})",
+        lambda: f'arrayPush(hl, {lit()}, {lit()})',
+        lambda: f'arraySet(hl, {rng.randint(0, 2)}, {lit()})',
+        lambda: f"objectAssign(h, objectNew('{key()}', {lit()}))",
+        lambda: f'arrayExtend(hl, arrayNew({lit()}))',
+        lambda: f"objectSet(objectGet(hn, 'o'), '{key()}', {lit()})",
+        lambda: f"arrayPush(objectGet(hn, 'k'), {lit()})",
+        lambda: f"objectSet(arrayGet(arrayGet(deep, 0), 0), '{key()}', {lit()})",
+        lambda: f'arrayPush(arrayGet(deep, 0), {lit()})',
+        lambda: f'arrayPush(deep, {lit()})',
+        lambda: f"objectSet(h, 'sum', objectGet(h, 'a') + {lit()})",
+        lambda: 'arraySet(hl, 0, arrayLength(hl))',
+        lambda: f"objectSet(h, '{key()}', arrayNew({lit()}, objectNew('v', {lit()})))",
+        lambda: 'for v, ix in hl:\n    arraySet(hl, ix, ix)\nendfor',
+    ]
+    output = [
+        lambda: f'{r()} = stringNew({tgt()})',
+        lambda: f"{r()} = '' + {tgt()}",
+        lambda: f"{r()} = {tgt()} + ':' + {lit()}",
+        lambda: f"{r()} = arrayJoin(arrayNew(h, hl, {lit()}), '|')",
+        lambda: f"{r()} = arrayJoin({rng.choice(['hl', 'deep', 'arrayGet(deep, 0)'])}, ',')",
+        lambda: f'{r()} = jsonStringify({tgt()})',
+        lambda: f'{r()} = jsonStringify({tgt()}, {rng.randint(1, 4)})',
+        lambda: f'systemLog({tgt()})',
+        lambda: f"systemLog('v=' + {tgt()})",
+        lambda: f'systemLogDebug({tgt()})',
+        lambda: f'{r()} = stringLength({tgt()})',
+        lambda: f'{r()} = mathAbs({tgt()})',
+        lambda: f"{r()} = objectGet(hl, 'a')",
+        lambda: f'{r()} = arrayGet(h, {rng.randint(0, 2)})',
+        lambda: f'{r()} = systemCompare({tgt()}, {tgt()})',
+        lambda: f'{r()} = arrayIndexOf(hl, {lit()})',
+    ]
+    lines = []
+    for _ in range(rng.randint(1, 5)):
+        lines.append(rng.choice(mutate)())
+    for _ in range(rng.randint(1, 4)):
+        lines.append(rng.choice(output)())
+        if rng.random() < 0.3:
+            lines.append(rng.choice(mutate)())
+    lines.append('return arrayNew(h, hl, hn, deep)')
+    return {'kind': 'hscript', 'text': '\n'.join(lines) + '\n', 'globals': glob}
+
+
+_R_FAILED = re.compile(r'^(BareScript: Function "[^"]+" failed with error: )(.*)$', re.S)
+
+
+def run_hscript(case, literal_spelling, host_spelling):
+    m = fw.impl()
+    model = m['parser'].parse_script(case['text'])
+    if literal_spelling == 'int':
+        model = int_literals(model)
+    sp = Speller(host_spelling)
+    g = {name: build(enc, sp) for name, enc in case['globals']}
+    log = []
+    opts = {'globals': g, 'maxStatements': 20000, 'logFn': log.append, 'debug': True}
+    try:
+        res = m['runtime'].execute_script(model, opts)
+        out = {'result': canon(res)}
+    except Exception as exc:  # pylint: disable=broad-except
+        out = {'raised': type(exc).__name__, 'message': str(exc)}
+    out['globals'] = sorted([k, canon(v)] for k, v in g.items() if not callable(v))
+    # the library's own argument-error texts (they quote the offending value as JSON) are compared, host exception texts are not
+    out['log'] = []
+    for ln in log:
+        mt = _R_FAILED.match(ln)
+        out['log'].append(ln if mt is None or mt.group(2).startswith(('Invalid "', 'Too many arguments (')) else mt.group(1))
+    out['statements'] = opts.get('statementCount')
+    return out
+
+
+def hscript_differs(case):
+    outs = {f'literals:{ls}/host:{hs}': run_hscript(case, ls, hs) for ls in ('int', 'float') for hs in ('int', 'float')}
+    vals = list(outs.values())
+    return any(v != vals[0] for v in vals[1:]), outs
+
+
+# ---------------------------------------------------------------------------------------------------------------------
 # Known finding F15
 # ---------------------------------------------------------------------------------------------------------------------
 
@@ -941,24 +1213,35 @@ def load_corpus():
     return cases
 
 
-def check_case(ctx, lim, st, case, how):
+def check_case(ctx, lim, st, case, how, key='', tags=(), nontrivial=None):
     if case['kind'] == 'call':
         differ, outs, classes = call_differs(case)
         nn = sum(count_nums(a) for a in case['args'])
-        tags = [f'fn:{case["fn"]}', f'gen:{how}', 'failed' if outs['int']['failed'] else 'ok', f'nargs{len(case["args"])}']
+        tags = [f'fn:{case["fn"]}', f'gen:{how}', 'failed' if outs['int']['failed'] else 'ok', f'nargs{len(case["args"])}'] + list(tags)
         if classes['int'] != classes['float']:
             tags.append('exception-class-differs')
-        st.case(case, nontrivial=nn > 0, tags=tags)
+        st.case(case, nontrivial=nn > 0 if nontrivial is None else nontrivial, tags=tags)
         if differ:
-            lim.witness(case['fn'], 'spelling-irrelevant:call', case, outs['int'], outs['float'] if outs['float'] != outs['int'] else outs['mix'],
+            # instances of the known finding F15 do not use up the witness budget of their function
+            lim.witness(key + case['fn'] + (':F15' if _is_f15({'input': case}) else ''), 'spelling-irrelevant:call', case, outs['int'],
+                        outs['float'] if outs['float'] != outs['int'] else outs['mix'],
                         spelling_of_actual='float' if outs['float'] != outs['int'] else 'mix', exception_classes=classes)
         return outs
     if case['kind'] in ('binary', 'unary'):
         differ, outs = op_differs(case)
-        st.case(case, nontrivial=count_nums(case['left']) + count_nums(case.get('right')) > 0, tags=[f'op:{case["kind"]}{case["op"]}'])
+        nn = count_nums(case['left']) + count_nums(case.get('right'))
+        st.case(case, nontrivial=nn > 0 if nontrivial is None else nontrivial, tags=[f'op:{case["kind"]}{case["op"]}'] + list(tags))
         if differ:
-            lim.witness(case['kind'] + case['op'], 'spelling-irrelevant:operator', case, outs['int/int'],
+            lim.witness(key + case['kind'] + case['op'], 'spelling-irrelevant:operator', case, outs['int/int'],
                         next(v for v in outs.values() if v != outs['int/int']), all_outcomes=outs)
+        return outs
+    if case['kind'] == 'hscript':
+        differ, outs = hscript_differs(case)
+        first = outs['literals:int/host:int']
+        st.case(case, nontrivial=True, tags=['hscript', 'raised' if 'raised' in first else 'ran'] + list(tags))
+        if differ:
+            lim.witness(key + 'hscript', 'spelling-irrelevant:host-container-script', case, first,
+                        next(v for v in outs.values() if v != first), all_outcomes=outs)
         return outs
     if case['kind'] == 'script':
         differ, outs = script_differs(case['text'])
@@ -1014,6 +1297,9 @@ def streams(ctx):
     for _ in range(ctx.scale(400, 10000)):
         check_case(ctx, lim, st, {'kind': 'script', 'text': gen_script(rng)}, 'script')
 
+    # --- host-created containers
+    host_streams(ctx, lim, names, models, modelled_cases)
+
     # --- correspondence: implementation vs Lean LibH for both spellings (+ the abstract spec)
     st = ctx.stream('libh-model', 'modelled host-level subset (%s): implementation vs Lean LibH on the int, float and alternating spelling and vs '
                                   'the abstract one-number-type function; by-value cases without aliasing; non-trivial = an integral number occurs' % ', '.join(MODELLED))
@@ -1036,6 +1322,88 @@ def streams(ctx):
             ctx.compare('libh-model', {'case': case, 'spelling': sp, 'layer': 'abstract'}, out, resp.get('abstract', resp))
 
 
+def host_streams(ctx, lim, names, models, modelled_cases):
+    """The spelling oracle with the numbers inside host-created dict / list subclass instances (see the section above)."""
+    classes = ', '.join(OBJ_CLASS_NAMES + ARR_CLASS_NAMES)
+
+    # every path from a container to text x where the number sits x every class
+    st = ctx.stream('host-text', 'conversion to text of a value holding an integral number inside a host subclass instance: %d placements (object value, '
+                                 'unsorted keys, array element, subclass inside plain, plain inside subclass, subclass in subclass, three deep, next to '
+                                 'number-lookalike strings) x %d object classes x %d array classes x paths stringNew, \'\' + v, v + text, arrayJoin '
+                                 '(plain and subclass array), systemLog, systemLogDebug, jsonStringify without / with indent 1 2 4, argument-error '
+                                 'message in the debug log (%s, objectKeys / arrayLength); numbers drawn from %r; all non-trivial' % (
+                                     len(host_shapes(N(0), N(0), 'MyDict', 'MyList', 'MyDict')), len(OBJ_CLASS_NAMES), len(ARR_CLASS_NAMES),
+                                     ', '.join(HOST_ERR_FNS), HOST_NUMS))
+    for shape, path, co, ca, case in host_text_cases(ctx):
+        check_case(ctx, lim, st, case, 'host-text', key='host-text:', tags=[f'shape:{shape}', f'path:{path}', f'obj:{co}', f'arr:{ca}'], nontrivial=True)
+
+    # scripts over host-provided globals
+    st = ctx.stream('host-script', 'generated scripts over host-provided globals (subclass object, subclass array, subclass instances inside a plain object, '
+                                   'subclass object inside a plain array inside a subclass array): number literals stored with objectSet / arrayPush / arraySet / '
+                                   'objectAssign / arrayExtend at every level, then stringNew / concatenation / arrayJoin / jsonStringify (with indent) / '
+                                   'systemLog / argument errors in debug mode; run with literals as parsed (float) and as int x host numbers as int and as '
+                                   'float (4 runs); result, globals, log, statement count compared; all non-trivial')
+    rng = ctx.rng('host-script')
+    for _ in range(ctx.scale(600, 8000)):
+        check_case(ctx, lim, st, gen_hostscript(rng), 'host-script', key='host-script:')
+
+    # every library function: the libnum / operator generators, containers of the arguments replaced by subclass instances
+    st = ctx.stream('host-containers', 'every SCRIPT_FUNCTIONS entry (same generators as libnum) and every operator, with the arrays / objects of '
+                                       'the arguments built as HOST-CREATED subclass instances (%s): all of them / only the outermost / only the ones nested '
+                                       'inside plain containers / a random half; numbers inside stay exact int / float; int / float / alternating spelling '
+                                       'compared as in libnum (+ the library\'s argument-error text). non-trivial = an integral number sits inside a '
+                                       'subclass instance' % classes)
+    rng = ctx.rng('host-containers')
+    per_fn = ctx.scale(80, 900)
+    text_fns = ('jsonStringify', 'stringNew', 'arrayJoin', 'systemLog', 'systemLogDebug', 'objectNew', 'arrayNew')
+    never = []
+    n_modelled = 0
+    for fname in names:
+        got = 0
+        for _ in range(per_fn * (3 if fname in text_fns else 1)):
+            for _try in range(4):
+                case, how = gen_case(rng, fname, models)
+                mode = rng.choice(HOST_MODES)
+                hcase, nsub = hostify_case(rng, case, mode)
+                if nsub:
+                    break
+            else:
+                continue
+            got += 1
+            inside = sum(nums_in_host(a) for a in hcase['args'])
+            check_case(ctx, lim, st, hcase, how, key='host:', tags=[f'host:{mode}'], nontrivial=inside > 0)
+            if fname in MODELLED and n_modelled < ctx.scale(1500, 20000) and model_expressible(hcase):
+                modelled_cases.append(hcase)
+                n_modelled += 1
+        if not got:
+            never.append(fname)
+    ctx.notes.append('host-containers: functions for which no generated argument list contained a container (number / string / datetime only '
+                     'functions): ' + ', '.join(never))
+    for case in op_cases_host(ctx, rng):
+        inside = nums_in_host(case['left']) + nums_in_host(case.get('right'))
+        check_case(ctx, lim, st, case, 'op', key='host:', tags=['host:op'], nontrivial=inside > 0)
+
+
+def op_cases_host(ctx, rng):
+    """Operators with a container operand built from host subclass instances (string concatenation, comparison, boolean operators)."""
+    containers = [c for c in OP_OTHERS if isinstance(c, dict) and ('a' in c or 'o' in c)]
+    others = [N(n) for n in OP_NUMS[:8]] + ['', 'abc', None, True]
+    for op in BIN_OPS:
+        for _ in range(ctx.scale(24, 400)):
+            left = rng.choice(containers) if rng.random() < 0.6 else rng.choice([gen_array(rng), gen_object(rng)])
+            right = rng.choice(others) if rng.random() < 0.5 else (left if rng.random() < 0.5 else rng.choice([gen_array(rng), gen_object(rng)]))
+            if rng.random() < 0.5:
+                left, right = right, left
+            case, nsub = hostify_case(rng, {'kind': 'binary', 'op': op, 'left': left, 'right': right}, rng.choice(HOST_MODES))
+            if nsub and op_safe(op, left, right):
+                yield case
+    for op in UN_OPS:
+        for _ in range(ctx.scale(6, 60)):
+            case, nsub = hostify_case(rng, {'kind': 'unary', 'op': op, 'left': rng.choice([gen_array(rng), gen_object(rng)])}, rng.choice(HOST_MODES))
+            if nsub:
+                yield case
+
+
 def search(ctx):
     """Directed search: boundary index / count / radix / digits arguments of every function, float spelling vs int spelling."""
     lib = fw.impl()['library']
@@ -1049,6 +1417,14 @@ def search(ctx):
             check_case(ctx, lim, st, case, how)
             if ctx.witnesses:
                 return
+    for _shape, _path, _co, _ca, case in host_text_cases(ctx):
+        check_case(ctx, lim, st, case, 'host-text', key='host-text:')
+        if ctx.witnesses:
+            return
+    for _ in range(ctx.scale(2000, 10000)):
+        check_case(ctx, lim, st, gen_hostscript(rng), 'host-script', key='host-script:')
+        if ctx.witnesses:
+            return
 
 
 def replay(witness):
@@ -1059,6 +1435,8 @@ def replay(witness):
         return op_differs(case)[0]
     if case['kind'] == 'script':
         return script_differs(case['text'])[0]
+    if case['kind'] == 'hscript':
+        return hscript_differs(case)[0]
     return False
 
 
@@ -1069,7 +1447,9 @@ LEVEL_TEXT = ('Theorems (all arguments, all argument-model tables): for the host
               'equal-valued argument lists give equal results; value_args_validate number checks are spelling-independent; value_round_number '
               'refines its abstract version for digits <= 22 (the F15 boundary is the hypothesis). Argument models are regenerated from library.py '
               'on every run. All other library functions, the operators and script-level literals are covered by the implementation-side '
-              'metamorphic oracle (stream libnum/operators/script) only.')
+              'metamorphic oracle (stream libnum/operators/script) only; the same oracle runs with the numbers inside host-created dict / list '
+              'subclass instances (OrderedDict, defaultdict, Counter, application subclasses) for every function, every operator, every '
+              'container-to-text path and scripts over host-provided globals (streams host-containers/host-text/host-script).')
 LEVEL_NOTE = ('proof for the host-level subset (index/count/size/radix/char-code users); translation-validation strength for the remaining library '
               'functions, where numbers only flow into comparison/arithmetic/stringification and Python int-vs-float mixed operations are exact on '
               'the values (assumption, DESIGN 6) - those are covered by the libnum/operators/script streams, not by a theorem. The model is by-value '
